@@ -416,7 +416,8 @@ class PolygonTensor(PolytopeTensor):
             plane = None
             todo = np.ones(self.shape[: -2], dtype=bool)
             for ind in combinations(range(len(vertices)), self.dim):
-                candidate = join(*[vertices[i] for i in ind], _check_dependence=False)
+                # not normalised: a vanishing result must stay recognisable as such
+                candidate = join(*[vertices[i] for i in ind], _check_dependence=False, _normalize_result=False)
                 spans = todo & ~candidate.is_zero()
                 if plane is None:
                     plane = candidate
